@@ -763,8 +763,11 @@ class C07(Check):
             "implementation, parser, combiner, chained datasource}, str | list | set, budget) incl. the documented rejections, "
             "get_filters(ds[, True]), late definition of implementation classes / parsers / combiners / chained datasources in "
             "the middle of the history; then content (0-20 marker-tagged lines over printable ASCII incl. regex metacharacters, "
-            "tabs, leading dashes, non-ASCII, NUL) pushed through 6 filter paths: host file + real grep -F, host command "
-            "pipeline cat | grep -F, archive post-filter, Cleaner allow-list, AllowFilter.filter_content, apply_filters; "
+            "tabs, leading dashes, non-ASCII, NUL, the characters str.splitlines() breaks at, lone CR) pushed through 6 filter "
+            "paths: host file + real grep -F, host command pipeline cat | grep -F, archive post-filter, Cleaner allow-list, "
+            "AllowFilter.filter_content, apply_filters; in 30% a second caller with another allow-list enters the same Cleaner "
+            "at the same time (SimPool, seeded schedule); implementations of the non-filterable spec built on the implementation "
+            "of the filterable one (one datasource, two registry points); "
             "non-trivial = a registration after a look-up, or content of >= 2 lines; distinct = digest of (history log, violations)")
     real_vs_stub = {
         "insights.core.filters.add_filter / get_filters / apply_filters (+ _CACHE, FILTERS)": "real",
